@@ -7,6 +7,7 @@ import (
 	"fmt"
 	"io"
 	"net/http"
+	"strconv"
 	"strings"
 	"sync"
 	"time"
@@ -56,6 +57,31 @@ func (s *c10Service) RoundTrip(req *http.Request) (*http.Response, error) {
 	mk := func(code int, rd io.Reader, n int) *http.Response {
 		return &http.Response{StatusCode: code, Status: fmt.Sprintf("%d", code), Proto: "HTTP/1.1", ProtoMajor: 1, ProtoMinor: 1,
 			Header: http.Header{"Content-Type": []string{"application/json"}}, Body: io.NopCloser(rd), Request: req, ContentLength: int64(n)}
+	}
+	if req.Method == http.MethodGet && strings.HasSuffix(req.URL.Path, "/changes") {
+		// the remote behind a proxy dataset: it serves the change feed of the hub's own dataset srcA and, as the
+		// protocol allows, pays no attention to the limit it is asked for
+		ds := s.r.H.Dataset("srcA")
+		if ds == nil {
+			return mk(404, bytes.NewReader(nil), 0), nil
+		}
+		since, _ := strconv.ParseUint(req.URL.Query().Get("since"), 10, 64)
+		res, err := ds.GetChanges(since, 0, false)
+		if err != nil {
+			return mk(500, strings.NewReader(err.Error()), len(err.Error())), nil
+		}
+		cb, _ := json.Marshal(s.r.H.Store.NamespaceManager.GetContext(nil))
+		elems := []string{string(cb)}
+		for _, e := range res.Entities {
+			b, _ := json.Marshal(e)
+			elems = append(elems, string(b))
+		}
+		elems = append(elems, fmt.Sprintf(`{"id":"@continuation","token":"%d"}`, res.NextToken))
+		body := "[" + strings.Join(elems, ",") + "]"
+		s.mu.Lock()
+		s.r.Stats["proxy_remote_reads"]++
+		s.mu.Unlock()
+		return mk(200, strings.NewReader(body), len(body)), nil
 	}
 	if !strings.Contains(req.URL.Path, "transform") {
 		return mk(404, bytes.NewReader(nil), 0), nil
